@@ -142,12 +142,12 @@ fn process_z80r_block<H: Host>(emulator: &mut Emulator<H>, block_data: &[u8]) ->
     emulator.cpu.set_im(block_data[28]);
 
     // dwCyclesStart
-    emulator.controller.frame_clocks = u32::from_le_bytes([
+    emulator.controller.set_frame_clocks(u32::from_le_bytes([
         block_data[29],
         block_data[30],
         block_data[31],
         block_data[32],
-    ]) as usize;
+    ]) as usize);
 
     // chHoldIntReqCycles
     // Ignored block_data 33
